@@ -65,6 +65,11 @@ def run(run):
     project = run.project
     ev = sym.make_evaluator(project, ST, [], inline_local=True, no_inline=("next_highest_power_of_2",))
     ev.self_class = ST + ".StudyTiling"
+    ev.inline_resolved = True       # methods called on the freshly built sub-tiling object belong to compute_for_subimage
+    ev.no_inline = tuple(ev.no_inline) + ("next_highest_power_of_2", "generate_populated_positions", "count_populated_positions", "tile_image",
+                                           "apply_to_imageset", "image_to_tile", "write_image", "read_image", "update_image", "make_maskable_buffer", "clear",
+                                           "update_into_maskable_buffer", "fill_into_maskable_buffer", "asarray", "get_default_vertical_parity_sign",
+                                           "get_default_format", "get_parity_sign", "flip_parity", "tile_path")
     fields_a, fields_b = _object_states(run, ev)
     if fields_a is None:
         return
@@ -357,7 +362,7 @@ def _r4_geometry(run, ev, fa, state_b):
                 run.undecided("C08.R4", init, None, "%s is %s; cannot relate it to %s (%s)" % (name, show(got)[:120], desc, termdiff.describe(d)[:160]),
                               kind="geometry-structure-" + name, field=name)
     lv = fa["_tile_levels"]
-    ok_lv = lv == ("call", ("sym", "int"), (("call", ("attr", ("sym", "np"), "log2"), (fa["_tile_size"],), ()),), ())
+    ok_lv = lv == ("op", "ilog2", (fa["_tile_size"],))          # floor(log2(tile_size)): int(np.log2(x)) or x.bit_length() - 1
     if ok_lv:
         run.holds("C08.R4", init, None, "_tile_levels = int(log2(tile_size))")
     else:
